@@ -110,7 +110,7 @@ func relevant(prop, aspect, hk string) bool {
 	case "C02":
 		return hk == "none" && (aspect == "read" || aspect == "parse")
 	case "C17":
-		return hk == "none" && (aspect == "tape" || aspect == "parse" || aspect == "detape")
+		return aspect == "detape" || (hk == "none" && (aspect == "tape" || aspect == "parse"))
 	case "C10":
 		return aspect == "marshal"
 	case "C11":
